@@ -1,12 +1,60 @@
-"""C02 — connection layer (spec/conn): see checklib/conn.py and DESIGN.md §5 C02."""
-from checklib import conn
+"""C02 — connection layer (spec/conn): see checklib/conn.py and DESIGN.md §5 C02.
+Besides the two-endpoint model, progress is also checked for the multi-peer endpoint (net.rs is anchored by C02:
+Net::needs_tick / Net::tick): deviations of a real Net<u8> from Net.tla that concern ticking and deadlines, judged by
+NetIso.tla against independent shadow connections, are C02 violations."""
+import json
+
+from checklib import conn, core
+from checklib.props import C20
 
 LEVEL = "model_checking"
 
 
+def net_progress(ctx, bins):
+    q = ctx.tier == "quick"
+    cfgs = [("net-server-ticks", C20.N(MaxFeeds=2, MaxCalls=2, MaxTicks=2, MaxRewind=0))]
+    if not q:
+        cfgs.append(("net-client-ticks", C20.N(Accepting=False, MaxFeeds=3, MaxCalls=2, MaxTicks=2)))
+    for s in conn.run_parallel([(C20.export_replay, (ctx, bins, n, c, 600 if q else 3000)) for n, c in cfgs], 2):
+        if s is None:
+            continue
+        ctx.coverage["transitions"] += s["transitions"]
+        ctx.coverage["states"] += s["states"]
+        ctx.coverage["evaluations"] += s["transitions"]
+        ctx.coverage["distinct_nontrivial"] += s["states"]
+        ctx.add_run("export+replay " + s["name"], transitions=s["transitions"], states=s["states"], mismatches=s["mismatches"],
+                    wall_s=round(s["wall_s"], 1))
+        cands = s.get("candidates", [])
+        if not cands:
+            continue
+        nruns, bad = C20.judge(s["cand_file"])
+        ctx.coverage["traces_validated_against_impl"] += nruns
+        badruns = {}
+        for b in bad:
+            badruns.setdefault(b["run"], []).append(b)
+        seen = {}
+        for i, c in enumerate(cands, start=1):
+            for b in badruns.get(i, []):
+                last = c["path"][-1].get("a", "?") if c["path"] else "?"
+                timing = last in ("tick", "advance") or "needs_tick" in b["why"]
+                if not timing:
+                    continue            # isolation / creation / removal findings belong to C20
+                key = "C02-net|%s|%s" % (b["why"][:60], last)
+                seen[key] = seen.get(key, 0) + 1
+                if seen[key] <= 2:
+                    ctx.report(key, "C02: the multi-peer endpoint does not tick / report deadlines like independent connections: " + b["why"],
+                               {"net": True, "accepting": s["cfg"]["Accepting"], "addrs": len(s["cfg"]["Addrs"]), "path": c["path"]})
+
+
 def run(ctx):
     conn.run_property(ctx, "C02")
+    bins = core.build_harness(["vh-conn"])
+    net_progress(ctx, bins)
 
 
 def replay(ctx, path):
-    conn.replay_file(ctx, "C02", path)
+    rep = json.load(open(path))["replay"]
+    if rep.get("net"):
+        C20.replay(ctx, path)
+    else:
+        conn.replay_file(ctx, "C02", path)
